@@ -214,6 +214,33 @@ Theorem C17_options_restrict : forall ndim ndir zflat nvar sc sn o o',
 Proof. exact alter_optvar_restricts. Qed.
 Print Assumptions C17_options_restrict.
 
+(* fitFromVMap: same guarantee (the forced "anisotropy + rotation" of the pinned tree is gone) *)
+Theorem C17_options_restrict_vmap : forall ndim nvar sc sn o o',
+  alter_vmap_optvar ndim nvar sc sn o = Some o' ->
+  (o_aniso o' = true -> o_aniso o = true) /\
+  (o_rot o' = true -> o_rot o = true /\ o_aniso o' = true) /\
+  (o_goulard o' = true -> o_goulard o = true /\ sc = false) /\
+  (o_goulard o' = false -> (nvar <= 1)%Z).
+Proof. exact alter_vmap_optvar_restricts. Qed.
+Print Assumptions C17_options_restrict_vmap.
+
+(* an equality constraint on an angle that is not a parameter of the fit is written into the structure ... *)
+Theorem C17_angle_equality_imposed : forall pre it post ps icov idim a0 v,
+  angle_is_param ps icov idim = false ->
+  (forall x, In x pre -> designates x (mkP 0 icov E_ANGLE idim 0) = false) ->
+  designates it (mkP 0 icov E_ANGLE idim 0) = true ->
+  ci_case it = T_EQUAL -> ci_val it = Some v ->
+  imposed_angle (pre ++ it :: post) ps icov idim a0 = v.
+Proof. exact imposed_angle_equal. Qed.
+Print Assumptions C17_angle_equality_imposed.
+
+(* ... and an angle that is inferred, or designated by no item, is left to the fit / to its reference value *)
+Theorem C17_angle_untouched : forall items ps icov idim a0,
+  angle_is_param ps icov idim = true \/ (forall it, In it items -> designates it (mkP 0 icov E_ANGLE idim 0) = false) ->
+  imposed_angle items ps icov idim a0 = a0.
+Proof. exact imposed_angle_untouched. Qed.
+Print Assumptions C17_angle_untouched.
+
 (* every range written into a structure is one of its RANGE parameters: positive parameters give positive ranges *)
 Theorem C17_ranges_positive : forall icov ps vals ranges,
   Forall (fun x => 0 < x) ranges ->
@@ -323,6 +350,8 @@ Example C17_options_nonvacuous :
   (match alter_optvar 2 3 [] 1 false false o with Some o' => o_rot o' | None => false end) = true /\
   (match alter_optvar 2 2 [] 1 false false o with Some o' => o_rot o' | None => true end) = false /\
   alter_optvar 2 3 [] 2 true false o = None /\
+  (match alter_optvar 2 3 [] 1 true false (set_goulard o false) with Some o' => o_goulard o' | None => true end) = false /\
+  (match alter_vmap_optvar 2 1 false false (set_aniso o false) with Some o' => o_aniso o' || o_rot o' | None => true end) = false /\
   length (parid_alloc o 2 1 chars) = 7%nat /\
   length (parid_alloc (set_rot o false) 2 1 chars) = 5%nat /\
   length (parid_alloc (set_aniso o false) 2 1 chars) = 3%nat.
@@ -332,3 +361,10 @@ Example C17_ranges_nonvacuous :
   ranges_of 1 [mkP 0 1 E_RANGE 0 0; mkP 0 1 E_RANGE 1 0; mkP 0 2 E_RANGE 0 0] [5; 2; 9] [1; 1] = [5; 2] /\
   ranges_of 2 [mkP 0 1 E_RANGE 0 0; mkP 0 1 E_RANGE 1 0; mkP 0 2 E_RANGE 0 0] [5; 2; 9] [1; 1] = [9; 9].
 Proof. vm_compute. split; reflexivity. Qed.
+
+Example C17_angle_nonvacuous :
+  let items := [mkI 0 1 E_ANGLE 0 0 T_EQUAL (Some 30); mkI 0 1 E_ANGLE 0 0 T_EQUAL (Some 45); mkI 0 2 E_ANGLE 0 0 T_LOWER (Some 10)] in
+  let ps := [mkP 0 1 E_RANGE 0 0; mkP 0 2 E_RANGE 0 0; mkP 0 3 E_ANGLE 0 0] in
+  imposed_angles items ps 1 [0; 0] = [30; 0] /\ imposed_angles items ps 2 [5; 0] = [5; 0] /\
+  imposed_angles (mkI 0 3 E_ANGLE 0 0 T_EQUAL (Some 60) :: items) ps 3 [7; 0] = [7; 0].
+Proof. vm_compute. repeat split; reflexivity. Qed.
